@@ -20,7 +20,7 @@ CHECKS = {
          'Lean 4 invariant + frame proofs + trace lemma on callbacks + differential correspondence'),
  'C08': ('proof', 'Theorems for every reachable state: once(t) for a future t succeeds, reports t, and a sleep past t executes the job at exactly t; reset() of a countdown job reports now + countdown and a sleep past it executes the job at exactly that instant; a fired countdown is paused with no run time; a one-shot job finishes with its execution; a job that is not RUNNING is never executed without its own reset/resume (C02) and its record is frozen (C07). Histories with interleaved resets/stops are decided by the correspondence plus a three-line reference model of the countdown evaluated on the real trace.', '8 C08', SCHED_NOTE,
          'Lean 4 proofs over reachable states + differential correspondence + reference-model oracle'),
- 'C09': ('proof', 'Theorems for every reachable state: the executions performed by a wake-up, a sleep or re-enabling are in non-decreasing order of the reported run times, each due no later than the clock, and everything still queued afterwards is due no earlier than any of them (any number of due jobs, whatever they do when run); the queue is sorted, duplicate-free and free of jobs without run time. Correspondence compares the order of executions inside each wake-up.', '8 C09', SCHED_NOTE,
+ 'C09': ('proof', 'Theorems for every reachable state: the executions performed by a wake-up, a sleep or re-enabling are in non-decreasing order of the reported run times, each due no later than the clock, and everything still queued afterwards is due no earlier than any of them (any number of due jobs, whatever they do when run); the queue is sorted, duplicate-free and free of jobs without run time; a separate model of a wake-up in which synchronous callables create further jobs (Reentrant.lean): the started job always is a minimum of the queue at that moment. Correspondence compares the order of executions inside each wake-up, incl. a directed re-entrant scenario.', '8 C09', SCHED_NOTE,
          'Lean 4 proof (ordering argument over the run loop using C04) + differential correspondence'),
  'C10': ('proof', 'Theorems: for every history, the run with raising callables/callbacks and the run of the same history without those failures return the same from every operation and end in states that agree in everything (status, run times, queue, timer, store, every logged execution and callback invocation) except the failure reports themselves; callbacks change nothing but the log; a wake-up keeps the scheduler invariant whatever raises; a failed reschedule never leaves the job RUNNING with the run time it was just executed for; the C01/C09 theorems (timer stays armed, every due job is executed in the wake-up, in order) hold for every failure injection. Correspondence with injected failures in callables (call-time and await-time), callbacks and triggers; oracle: one handler report per failing invocation, behaviour identical to the failure-free history.', '8 C10', SCHED_NOTE,
          'Lean 4 proof (equational commutation with the failure-erasing projection, invariants) + differential correspondence + failure-free differential oracle'),
@@ -31,7 +31,9 @@ CHECKS = {
          '8 C04', PROD_NOTE, 'Lean 4 structural induction over the trigger language + differential correspondence'),
  'C05': ('proof', 'Theorem getNext_least: for time / interval / group triggers with member- and group-level filters (any nesting of groups) the '
          'result is the least element of the declaratively defined admissible occurrence set after the reference instant; the zone enters '
-         'through the explicit hypothesis TimeRegular, evaluated by the executable model for every zone/time/policy of the run. '
+         'through the hypothesis TimeRegular, which is PROVED from the transition table for every sorted table whose offsets span less '
+         'than 24 h - 121 min (getNext_least_narrow; side condition evaluated by the driver on the table of every case; 592 of 599 zone names) '
+         'and evaluated by the executable model for every zone/time/policy of the run otherwise. '
          'Oracle: independent enumeration with zoneinfo (PEP 495).', '8 C05', PROD_NOTE,
          'Lean 4 refinement to a declarative occurrence-set spec (loop invariants) + differential correspondence'),
  'C06': ('proof', 'Theorems: Zone.resolve is sound and complete w.r.t. toLocal for every sorted transition table (unique / repeated / skipped '
@@ -57,12 +59,17 @@ CHECKS = {
  'C11': ('proof', 'Theorems for every finite history of operations on a sequential manager (submissions from outside, from inside the '
          'running task and from a listener woken by the finishing task; completions, failures, cancellations; all bounds, policies, keys): '
          'at most one task exists whose done callback has not run and it is self.task (invariant over the asyncio ready-queue model); '
-         'coroutines start from the head of the queue; de-duplication keeps only the newest per key. Correspondence on a real asyncio '
+         'coroutines start from the head of the queue; de-duplication keeps only the newest per key; conservation in every reachable state '
+         '(create_task calls = waiting + tasks created + closed unstarted, so a coroutine submitted once is in exactly one place and its body '
+         'is entered at most once); tasks are created in submission order; a coroutine waits only behind an unfinished current task; the '
+         'bounded queue never exceeds its bound and the policies drop exactly the named victim. Correspondence on a real asyncio '
          'loop with instrumented coroutines; oracle: one at a time, start order, victims, conservation.', '8 C11', TM_NOTE,
          'Lean 4 invariant proof over an asyncio ready-queue model + differential correspondence on a real loop'),
  'C12': ('proof', 'Theorems: the limiting parallel manager never tracks more than its limit in any reachable state; skip closes the new '
          'coroutine and changes nothing else; cancel_first / cancel_last cancel and untrack the oldest / newest task before the new one '
-         'is created; the done callback frees the slot; the unbounded manager creates and tracks a task for every coroutine. '
+         'is created; the done callback frees the slot; the unbounded manager creates and tracks a task for every coroutine and, in every '
+         'reachable state, tracks exactly the tasks whose done callback has not run; the limiting manager never tracks a finished task; '
+         'conservation (every submission has one task or was closed unstarted; body entered at most once). '
          'Correspondence incl. garbage collection of weakly held tasks.', '8 C12', TM_NOTE,
          'Lean 4 invariant proof + differential correspondence on a real loop'),
  'C03': ('proof', 'Theorems: one full round of a recurring job in every reachable state, whatever else is queued or happens in the wake-up: '
@@ -79,7 +86,8 @@ CHECKS = {
          're-queries in another order, derives with every builder method, copies, builds two jobs from one object and derives filters, '
          'and compares every answer with the pure model.', '8 C15', PROD_NOTE,
          'Lean 4 proof of state-unobservability + self-consistency and correspondence checks on real builder objects'),
- 'C17': ('proof', 'Theorems: any/all/not_, the time window (lower <= t < upper), weekday/day/month membership, locality; wrapped ranges denote '
+ 'C17': ('proof', 'Theorems: the date functions of the model are the proleptic Gregorian calendar for every integer day number '
+         '(successor of every date, well-formedness, inverse, weekday cycle, anchor 1970-01-01); any/all/not_, the time window (lower <= t < upper), weekday/day/month membership, locality; wrapped ranges denote '
          'the obvious sets; single values outside min..max and empty arguments are rejected; every English and German weekday and month '
          'name (full and abbreviated) maps to its number in the tables read from the imported source on this run (decide +kernel). The '
          'string front end (split/strip/isdigit/lower) is executable model code validated against the code on ~4000 spellings.',
@@ -96,7 +104,9 @@ CHECKS = {
          'Lean 4 proof + differential correspondence under a patched clock in all zone shapes'),
  'C20': ('proof', 'Theorems: both policies given are used verbatim; a time inside an hour find_time reported is rejected; acceptance means '
          'outside every reported hour; the four probes of find_time; validity = PEP 495 (sound for sorted tables); the scan orders of the '
-         'source. That the probed hour covers every day of the year depends on the zone-year being regular: decided per zone-year by '
+         'source; accepted_safe_all_year: the property itself (accepted without a forward / backward policy => skipped / repeated on no day of '
+         'the year) under the explicit hypothesis YearRegular, which is proved for a zone-year with the shape of Europe/Berlin. Whether a '
+         'real zone-year is regular is decided per zone-year by '
          'exhaustive comparison of model, code (module reloaded under a patched clock) and a scan of every clock change of the year, '
          'with no / only forward / only backward policy given.', '8 C20', PROD_NOTE,
          'Lean 4 proof of the decision logic + per-zone-year exhaustive correspondence and zone-file scan'),
